@@ -158,13 +158,20 @@ namespace {
    int do_record(int argc, char** argv)
    {
       unsigned long seed = 1;
-      int runs = 10, len = 100, noise = 0;
+      int runs = 10, len = 100, noise = 0, focus = 0;
       std::vector<std::string> ops = all_ops;
       for (int k = 2; k + 1 < argc; k += 2) {
          std::string f = argv[k], v = argv[k + 1];
          if (f == "--seed") seed = std::stoul(v);
          else if (f == "--runs") runs = std::stoi(v);
          else if (f == "--len") len = std::stoi(v);
+         else if (f == "--focus") focus = std::stoi(v);
+         else if (f == "--wordset") {
+            vocabulary.clear();
+            std::stringstream ss(v);
+            std::string o;
+            while (std::getline(ss, o, '|')) vocabulary.push_back(o);
+         }
          else if (f == "--noise") noise = std::stoi(v);   // unrelated insertions between two requests
          else if (f == "--ops") {
             ops.clear();
@@ -175,6 +182,7 @@ namespace {
       }
       std::ios::sync_with_stdio(false);
       Rng rng { seed };
+      rng.focus = focus;
       for (int run = 0; run < runs; ++run) {
          Interp in;
          auto init = init_event(in);
